@@ -1166,6 +1166,67 @@ pub fn validate_hist(out: &mut String, rng: &mut Rng, cases: usize) {
     }
 }
 
+/// EXHAUSTIVE small scope (seed-independent): every script of exactly `depth` commands over 2 replicas and members {0,1}
+/// built from `G r add m`, `G r rm m`, `D r o_i` (any op defined so far, duplicates included; op-author order respected so
+/// that the Orswot discipline holds) and `M r r'`, each followed by `E`.
+pub fn orswot_exhaustive(out: &mut String, depth: usize) {
+    fn rec(out: &mut String, prefix: &mut Vec<String>, authors: &mut Vec<usize>, know: &mut [Vec<bool>; 2], depth: usize) {
+        if prefix.len() == depth {
+            // skip scripts without any delivery/merge (nothing replicated)
+            if prefix.iter().any(|l| l.starts_with('D') || l.starts_with('M')) {
+                out.push_str("T orswot 2\n");
+                for l in prefix.iter() {
+                    out.push_str(l);
+                    out.push('\n');
+                }
+                out.push_str("E\n");
+            }
+            return;
+        }
+        let nops = authors.len();
+        for r in 0..2usize {
+            for kind in ["add", "rm"] {
+                for m in 0..2 {
+                    prefix.push(format!("G {} o{} {} {}", r, nops, kind, m));
+                    authors.push(r);
+                    let saved = know.clone();
+                    know[0].push(r == 0);
+                    know[1].push(r == 1);
+                    rec(out, prefix, authors, know, depth);
+                    *know = saved;
+                    authors.pop();
+                    prefix.pop();
+                }
+            }
+            for j in 0..nops {
+                // per-author order: all earlier ops of the same author must be known
+                let a = authors[j];
+                if (0..j).all(|i| authors[i] != a || know[r][i]) {
+                    prefix.push(format!("D {} o{}", r, j));
+                    let was = know[r][j];
+                    know[r][j] = true;
+                    rec(out, prefix, authors, know, depth);
+                    know[r][j] = was;
+                    prefix.pop();
+                }
+            }
+            let o = 1 - r;
+            prefix.push(format!("M {} {}", r, o));
+            let saved = know[r].clone();
+            for i in 0..nops {
+                if know[o][i] {
+                    know[r][i] = true;
+                }
+            }
+            rec(out, prefix, authors, know, depth);
+            know[r] = saved;
+            prefix.pop();
+        }
+    }
+    let mut know: [Vec<bool>; 2] = [vec![], vec![]];
+    rec(out, &mut vec![], &mut vec![], &mut know, depth);
+}
+
 pub fn main(args: &[String]) {
     let profile = args.first().map(|s| s.as_str()).unwrap_or("");
     let seed: u64 = args.get(1).and_then(|s| s.parse().ok()).unwrap_or(1);
@@ -1462,6 +1523,8 @@ pub fn main(args: &[String]) {
         }
         "merkle_small_all_orders" => crate::gen_merkle::small_all_orders(&mut out, &mut rng, cases),
         "map_scenario" => map_scenario(&mut out, &mut rng, cases),
+        // `cases` is the script length here (quick 4, thorough 5)
+        "orswot_exhaustive" => orswot_exhaustive(&mut out, cases.clamp(1, 6)),
         "orswot_overtake" => orswot_overtake(&mut out, &mut rng, cases),
         "lww_conflict" => {
             // deliberately reused markers: validate_op / validate_merge must flag equal marker + different value, only
